@@ -1,13 +1,17 @@
 """C16 — approximate search keeps a recall floor and is deterministic.
 
 The recall floor (a mean over seeded datasets of numeric outputs of a graph heuristic) is NOT decided: no shape of the code is a
-necessary condition for "≥ 0.80".  Decided are three structural clauses without which the behaviour cannot hold:
+necessary condition for "≥ 0.80".  Decided are structural clauses without which the behaviour cannot hold:
   R1  determinism sources: from the index search entry points no random-number source, clock, hash-iteration order or thread identity
       is reachable (a repeated search on an unchanged collection then cannot differ);
   R2  the thread-local search scratch carries nothing from one search into the next: every mark records the id it marks, prepare()
-      clears every recorded mark (and both heaps, C17.R1) before the first mark of a search;
+      clears every recorded mark (and both heaps, C17.R1) before the first mark of a search; closed inventory: EVERY field of the
+      scratch is reset by prepare() on every path and prepare() precedes every other access to the scratch;
   R3  the beam is never narrower than the answer: the width given to the exact layer-0 search is ≥ min(k, number of nodes) and the
-      oversampled candidate count of the tombstone filter is ≥ k for every validated k (≤ 10 000).
+      oversampled candidate count of the tombstone filter is ≥ k for every validated k (≤ 10 000);
+  R4  the pruning bound of every beam search is refreshed after every change of the result heap;
+  R5  graph construction: a reverse edge is dropped without touching the neighbour's list only for invalid arguments or an existing
+      edge (closed table), and every rewrite of a list was offered the incoming node — otherwise late nodes get no incoming edges.
 """
 import re
 
@@ -15,11 +19,12 @@ from kvstatic import flow, util
 from kvstatic.callgraph import reachable_bodies
 
 MANIFEST = {
-    'text': 'Decides three necessary conditions, not the recall statistic: (R1) no random-number source, clock, hash-iteration order or thread '
+    'text': 'Decides necessary conditions, not the recall statistic: (R1) no random-number source, clock, hash-iteration order or thread '
             'identity is reachable from the index search entry points (HnswBackend::knn_search*, HnswVectorIndex::knn_search*, FlatGraph::search), '
             'so a repeated search on an unchanged collection cannot differ; (R2) the thread-local search scratch carries nothing from one search '
-            'into the next (every mark is recorded, prepare() clears every recorded mark before the first mark); (R3) the beam given to the exact '
-            'layer-0 search is ≥ min(k, node count) and the oversampled k of the tombstone filter is ≥ k for every validated k. The recall floor '
+            'into the next (every mark is recorded, prepare() clears every recorded mark before the first mark, every field of the scratch is reset by prepare()); (R3) the beam given to the exact '
+            'layer-0 search is ≥ min(k, node count) and the oversampled k of the tombstone filter is ≥ k for every validated k; (R5) the reverse-edge merge of the '
+            'graph construction refuses a newcomer without touching the list only for invalid arguments or an existing edge. The recall floor '
             '(≥ 0.80 mean recall, ≤ 0.10 drop across build routes) is a statistic of numeric outputs and is NOT decided.',
     'design_ref': 'DESIGN.md §4.16 (revised in §9.6)',
     'note': 'A clock read for metrics inside the search path would need a named exception; today there is none.',
